@@ -2,7 +2,9 @@
 // units/C14/il_mut.rs - the mutators `dead_code_elimination` goes through to replace one operation:
 //   Function::block_mut -> ControlFlowGraph::block_mut -> (graph::vertex_mut, C11)
 //   Block::instruction_mut, Instruction::operation_mut, Operation::nop
-// and the two classifiers of the candidate filter (Instruction::is_assign / is_load).
+// the classifiers Instruction::is_assign / is_load of the candidate filter (+ is_store / is_branch), and the
+// constructors Instruction::new / nop (not used by the function as it stands; under contract so that a variant of
+// the function that builds a fresh instruction is judged by the verifier and not only by the bounded enumerator).
 // REAL text, extracted; proved in THIS unit (ControlFlowGraph::block_mut and Operation::nop are also under
 // contract in unit C15's cfg_edit.rs / block_edit.rs; re-proved here from the same text, as unit C10 does,
 // because block_edit.rs carries Block::instruction_mut WITHOUT an effect contract and two extractions of one
@@ -37,6 +39,26 @@ impl Instruction {
 //@ fn impl Instruction :: fn is_load
 //@ spec
     ensures /*@variant*/ r == (self.operation is Load),
+//@ end
+
+//@ fn impl Instruction :: fn is_store
+//@ spec
+    ensures /*@variant*/ r == (self.operation is Store),
+//@ end
+
+//@ fn impl Instruction :: fn is_branch
+//@ spec
+    ensures /*@variant*/ r == (self.operation is Branch),
+//@ end
+
+//@ fn impl Instruction :: fn new
+//@ spec
+    ensures /*@ctor*/ r == (Instruction { operation: operation, index: index, comment: None, address: None }),
+//@ end
+
+//@ fn impl Instruction :: fn nop
+//@ spec
+    ensures /*@ctor*/ r == (Instruction { operation: Operation::Nop { placeholder: None }, index: index, comment: None, address: None }),
 //@ end
 
 //@ fn impl Instruction :: fn operation_mut
